@@ -449,6 +449,7 @@ class Run:
         self.stats = {}
         self.prng = random.Random(1000003 * ctx.seed + 17)    # permutation experiments (independent of op generation)
         self.perm_reqs = []       # (model 'accepts' request, what SQLite said, context)
+        self.doomed_pairs = set() # {tag, tag} pairs the application linked while one of them was already deleted
         self.delq = []            # obj.delete() calls recorded for the delete-queue model
         self.planned = []         # ops of a multi-op pattern (reference cycle) still to be issued
         self.pk_used = set()      # (entity, target tag) pairs already used as a reference primary key
@@ -518,6 +519,10 @@ class Run:
                     cands = w.alive(te)
                     if cands and rng.random() < 0.4: links[name] = sorted(set(rng.choice(cands) for _ in range(rng.choice([1, 2]))))
                 tag = self.next_tag; self.next_tag += 1
+                if links and rng.random() < 0.35:
+                    # a new object with links, deleted (or one of its link targets deleted / unlinked from the other side) before any flush
+                    name = sorted(links)[0]; t2 = links[name][0]; other = ('s' if name[0] == 'r' else 'r') + name[1:]
+                    self.planned = [rng.choice([['del', tag], ['del', t2], ['mrem', t2, other, tag]])]
                 return ['new', e, tag, kw, links]
             al = w.alive()
             if not al: continue
@@ -548,7 +553,12 @@ class Run:
                     members = [m.tag for m in getattr(o, name) if m._status_ not in DEAD]
                     if members: return ['mrem', t, name, rng.choice(sorted(members))]
                 if not cands: continue
-                return ['madd', t, name, rng.choice(cands)]
+                t2 = rng.choice(cands)
+                if rng.random() < 0.5:
+                    # take the pending link back inside the same flush window: delete an end, or remove it from the OTHER side
+                    other = ('s' if name[0] == 'r' else 'r') + name[1:]
+                    self.planned = [rng.choice([['del', t2], ['del', t], ['mrem', t2, other, t], ['mrem', t, name, t2]])]
+                return ['madd', t, name, t2]
             if r < 0.94: return ['oflush', t]
             return ['flush']
         return ['flush']
@@ -565,6 +575,9 @@ class Run:
             elif not self.spec['ents'][e]['auto']: args['id'] = 1000 + tag
             for name, t in kw.items(): args[name] = w.get(t)
             for name, ts in links.items(): args[name] = [w.get(t) for t in ts]
+            for v in list(args.values()):
+                for x in (v if isinstance(v, list) else [v]):
+                    if isinstance(x, core.Entity) and x._status_ in DEAD: self.doomed_pairs.add(frozenset((tag, x._vals_.get(x.__class__.tag))))
             if any(v is None for v in args.values()) or any(isinstance(v, list) and None in v for v in args.values()):
                 raise LookupError('stale target')
             w.objs[tag] = w.E[e](**args)
@@ -573,6 +586,7 @@ class Run:
             _, t, name, tgt = op
             o = w.get(t); v = None if tgt is None else w.get(tgt)
             if o is None or (tgt is not None and v is None): raise LookupError('stale target')
+            if v is not None and v._status_ in DEAD: self.doomed_pairs.add(frozenset((t, tgt)))
             setattr(o, name, v)
         elif k == 'touch':
             o = w.get(op[1])
@@ -596,6 +610,7 @@ class Run:
             _, t, name, t2 = op
             o = w.get(t); o2 = w.get(t2)
             if o is None or o2 is None: raise LookupError('stale target')
+            if k == 'madd' and (o._status_ in DEAD or o2._status_ in DEAD): self.doomed_pairs.add(frozenset((t, t2)))
             (getattr(o, name).add if k == 'madd' else getattr(o, name).remove)(o2)
         elif k == 'oflush':
             o = w.get(op[1])
@@ -695,14 +710,21 @@ class Run:
         rows0 = [k for k, st in enumerate(ab['status']) if st in HASROW]
         def stable(y): return ab['status'][y] in HASROW and ab['status'][y] != 'marked_to_delete'
         hyp = True
+        bad_pairs = []          # (object, dead target) pairs behind a failing hypothesis
+        tag_of = lambda k: objs[k]._vals_.get(objs[k].__class__.tag)
         for x, st in enumerate(ab['status']):
             rs = ab['refs'][x] if st == 'created' else [r for r in ab['refs'][x] if r[1]] if st == 'modified' else []
             for t, _ in rs:
-                if not (ab['status'][t] == 'created' or stable(t)): hyp = False
+                if not (ab['status'][t] == 'created' or stable(t)): hyp = False; bad_pairs.append(frozenset((tag_of(x), tag_of(t))))
         for pr in ab['added']:
             for e in pr:
-                if not ((ab['status'][e] == 'created' and e in ab['queue']) or stable(e)): hyp = False
+                if not ((ab['status'][e] == 'created' and e in ab['queue']) or stable(e)): hyp = False; bad_pairs.append(frozenset(tag_of(k) for k in pr))
         self.count('fk-hypotheses:' + ('hold' if hyp else 'FAIL'))
+        # the failure of a hypothesis excuses a failing flush only when the APPLICATION asked for the impossible (it linked
+        # to an object that was already deleted at that moment - Pony accepts that); a pending link / reference to a deleted
+        # object that Pony's own bookkeeping kept after a later delete() is Pony's to drop: the history stays orderable
+        excused = (not hyp) and all(bp in self.doomed_pairs for bp in bad_pairs)
+        if not hyp and not excused: self.count('pending-write-to-a-deleted-object-kept-by-the-session')
         if err is None:
             real = {'ok': trace}
         else:
@@ -717,14 +739,14 @@ class Run:
         self.count('outcome:' + ('ok' if err is None else type(err).__name__))
         for wr in trace: self.count('stmt:' + wr[0])
         if unknown: self.problems.append(('infrastructure: unparsed statement', unknown[:2]))
-        if err is None and any(-1 in wr[1:] for wr in trace): self.problems.append(('infrastructure: statement for an unknown object', trace))
+        if err is None and any(-1 in wr[1:] for wr in trace): self.count('statement-with-a-key-no-object-of-the-session-has')    # compared with the model below (divergence)
         # ---------------- property oracle
-        if not hyp:
+        if excused:
             # a pending statement refers to a row that the same flush deletes (Pony let the application link to an object
             # that is marked_to_delete): no order satisfies the backend; the flush may only fail cleanly
             self.count('not-orderable:reference-to-a-row-deleted-by-the-same-flush')
             self.byproducts.append(('reference to a marked_to_delete object accepted', self.hist))
-        if not cyclic and hyp and err is not None:
+        if not cyclic and not excused and err is not None:
             det = {'error': str(err)[:300], 'statements_so_far': trace}
             if not self.strict and isinstance(err, core.OptimisticCheckError) and trace and trace[-1][0] == 'update' \
                     and any(wr[0] == 'delete' for wr in trace[:-1]):
